@@ -1022,9 +1022,11 @@ VALUE_SETS = {
     "generic": [[0.3, 0.7], [-1.3, 2.6], [0.05, -0.95]],  # float16 rounds these: see TOL_F16
 }
 # float16 positions: the shift itself is rounded to 11 bits (relative 4.9e-4). Worst deviation from the float32 spelling on the unchanged tree
-# (generic values, all ROI shapes, seeds {0,1,2,7,12345}): 1.2e-3 of the maximum -> TOL_F16 = 2.5e-2 (21x). The seeded frequency-grid change makes
-# float16 positions raise and integer-dtype positions return the unshifted array (deviation O(1) >= 40x TOL_F16). Every other spelling: <= 2.9e-7 -> TOL.
-TOL_F16 = 2.5e-2
+# (generic values, ROI shapes (6,6),(7,10),(8,5),(9,9), seeds {0,1,2,7,12345}): 1.75e-3 of the maximum -> TOL_F16 = 4e-2 (23x). Every other
+# spelling: <= 9.3e-7 (float64 positions against the float32 canonical ramp) -> TOL_SPELL = 3e-5 (32x). The seeded frequency-grid change makes
+# integer-dtype positions return the unshifted array (deviation O(1) = 25x TOL_F16, > 3e4 x TOL_SPELL) and float16 positions raise (counted).
+TOL_F16 = 4e-2
+TOL_SPELL = 3e-5
 
 
 def spellings(impl, quick=True):
@@ -1218,13 +1220,18 @@ def judge_spelling(t, roi, sp, seed):
             return
         got = got.reshape(ref.shape)
     sc = max(float(np.abs(ref).max()), 1e-30)
-    tol = TOL_F16 if (sp["pos_dtype"] == "float16" and sp["values"] == "generic") else TOL
+    tol = TOL_F16 if (sp["pos_dtype"] == "float16" and sp["values"] == "generic") else TOL_SPELL
     d = float(np.abs(got - ref).max()) / sc
-    t.stat("spelling_vs_canonical_dev_" + ("float16_generic" if tol == TOL_F16 else ("real_array" if key == "array_real_dtype" else "other")), d)
+    if key == "array_real_dtype":
+        # real-valued data are outside the quantifier ("for all complex arrays/probe stacks"; every library caller passes complex probes): observed only.
+        # On the unchanged tree the complex phase ramp is cast to the real dtype of the data, so a real array is not translated (deviation 0.8-0.9).
+        t.stat("spelling_vs_canonical_dev_real_array_not_judged", d)
+        if d > tol:
+            t.extra["observed_real_array_differs_from_real_part_of_complex_result"] += 1
+        return
+    t.stat("spelling_vs_canonical_dev_" + ("float16_generic" if tol == TOL_F16 else "other"), d)
     if not np.isfinite(got).all() or d > tol:
         t.fail({"relation": "shift_spelling_matches_canonical", **cls}, case, f"{where}: differs from the canonical spelling (float32 (N,2) positions, complex128 data, same values) by {d:.3g} of the maximum (tol {tol:g})")
-        if key == "array_real_dtype":
-            return  # one class for the real-array defect; the identities below would only repeat it
     if pos_copy is not None and not np.array_equal(_np(pos), pos_copy):
         t.fail({"relation": "inputs_unmodified", **cls}, case, f"{where}: the positions object was modified")
     if sp["entry"] == "fourier_translation_operator":
@@ -1232,17 +1239,17 @@ def judge_spelling(t, roi, sp, seed):
         if e > TOL:
             t.fail({"relation": "translation_ramp_unit_modulus", **cls}, case, f"{where}: | |ramp| - 1 | = {e:.3g}")
         return
-    if sp["entry"] != "fourier_shift_expand" or key == "array_real_dtype":
+    if sp["entry"] != "fourier_shift_expand":
         return
     integer = sp["values"] in ("int", "uint")
     x128 = xref.astype(np.complex128)
     for i, v in enumerate(vals):
         en = float(np.sum(np.abs(got[i]) ** 2) / np.sum(np.abs(x128) ** 2))
-        if abs(en - 1) > max(tol, TOL):
+        if abs(en - 1) > tol:
             t.fail({"relation": "shift_preserves_intensity", **cls}, case, f"{where}: total intensity ratio {en:.6g} for shift {v}")
         if integer:
             e = float(np.abs(got[i] - np.roll(x128, (int(v[0]), int(v[1])), axis=(-2, -1))).max()) / sc
-            if e > TOL:
+            if e > TOL_SPELL:
                 t.fail({"relation": "integer_shift_is_roll", **cls}, case, f"{where}: shift {v} differs from np.roll by {e:.3g} of the maximum")
                 break
     if integer and len(vals) >= 1 and sp["array_layout"] in ("contiguous", "transposed_view"):
@@ -1254,7 +1261,7 @@ def judge_spelling(t, roi, sp, seed):
             two = call_entry(canon_sp, roi, step, mk(b), seed)[0]
             one = call_entry(canon_sp, roi, cdata, mk([vals[0][0] + b[0], vals[0][1] + b[1]]), seed)[0]
         e = float(np.abs(two - one).max()) / sc
-        if e > TOL:
+        if e > TOL_SPELL:
             t.fail({"relation": "shift_additive", **cls}, case, f"{where}: shift {vals[0]} followed by shift {b} differs from the combined shift by {e:.3g}")
 
 
@@ -1296,9 +1303,11 @@ def run(ctx):
         "modules would break isinstance relations between them); histories are bounded at two (thorough: three) calls of a 27-call alphabet built to collide on coarse cache keys (equal axis lengths with "
         "different samplings, equal shapes with different data); in the history part the propagator kernel IS judged against the closed-form Fresnel kernel (1e-4), because a propagator built with another "
         "model's sampling still satisfies every group identity",
-        "argument spellings: the canonical spelling of a shift is a contiguous float32 (N,2) tensor/array with complex128 data; every other accepted spelling must agree with it within 1e-5 of the maximum "
-        "(float16 positions holding values that float16 rounds: 2.5e-2, 21x the 1.2e-3 measured on the unchanged tree); a spelling the library rejects (Python lists/tuples, positions of shape (2,), NumPy data with "
+        "argument spellings: the canonical spelling of a shift is a contiguous float32 (N,2) tensor/array with complex128 data; every other accepted spelling must agree with it within 3e-5 of the maximum "
+        "(32x the 9.3e-7 measured on the unchanged tree; float16 positions holding values that float16 rounds: 4e-2, 23x the measured 1.75e-3); a spelling the library rejects (Python lists/tuples, positions of shape (2,), NumPy data with "
         "torch positions on the unchanged tree) is counted per spelling class (count_rejected_*), never flagged, so a change that turns an accepted spelling into an exception shows only in those counters",
+        "real-valued data arrays (float32/float64) are outside the quantifier ('for all complex arrays/probe stacks'; every library caller passes complex probes): they are run and compared with the real part of the complex result, "
+        "but only counted (count_observed_real_array_differs_from_real_part_of_complex_result). On the unchanged tree fourier_shift_expand casts the complex phase ramp to the real dtype of the data, so a real array comes back essentially untranslated (deviation 0.8-0.9 of the maximum)",
         "the closed-form Fresnel kernel is compared for information only (max_fresnel_kernel_dev), kernel values are the subject of C02",
     )
 
